@@ -27,6 +27,7 @@ type Val struct {
 	Y    []byte
 	L    []*Val
 	LT   string // element type hint for building a typed slice: "", int64, string, float64, bool
+	NilC bool   // an empty list / map that is a NIL slice / map in Go (the model sees an empty container)
 	MK   string // any string int64 other
 	MVA  bool
 	M    [][2]*Val
@@ -69,11 +70,17 @@ func (v *Val) MarshalJSON() ([]byte, error) {
 		if l == nil {
 			l = []*Val{}
 		}
+		if v.NilC && len(l) == 0 {
+			return json.Marshal(map[string]any{"l": l, "nilc": true, "lt": v.LT})
+		}
 		return json.Marshal(map[string]any{"l": l})
 	case "m":
 		m := v.M
 		if m == nil {
 			m = [][2]*Val{}
+		}
+		if v.NilC && len(m) == 0 {
+			return json.Marshal(map[string]any{"m": []any{v.MK, v.MVA, m}, "nilc": true})
 		}
 		return json.Marshal(map[string]any{"m": []any{v.MK, v.MVA, m}})
 	case "n":
@@ -194,6 +201,15 @@ func (v *Val) ToGo() any {
 	case "y":
 		return append([]byte{}, v.Y...)
 	case "l":
+		if v.NilC && len(v.L) == 0 {
+			switch v.LT {
+			case "string":
+				return []string(nil)
+			case "int64":
+				return []int64(nil)
+			}
+			return []any(nil)
+		}
 		elems := make([]any, len(v.L))
 		for i, e := range v.L {
 			elems[i] = e.ToGo()
@@ -285,6 +301,9 @@ func (v *Val) mapToGo() any {
 				vt = reflect.TypeOf(g)
 			}
 		}
+	}
+	if v.NilC && len(v.M) == 0 {
+		return reflect.Zero(reflect.MapOf(kt, vt)).Interface()
 	}
 	m := reflect.MakeMap(reflect.MapOf(kt, vt))
 	for _, kv := range v.M {
